@@ -144,6 +144,8 @@ def run(chk):
             return X.fn('gamma', X.lift(args[0]) + 1)
         return NotImplemented
     it2 = Interp(repo, hooks={'call': call_hook})
+    from .common import ArrayTwin
+    twin = ArrayTwin(chk, 'R07.7', it2, d)
     comp = 1 / mu
     legacy = {'elastic': ('Elastic', ()), 'newton': ('Newton', ()), 'maxwell': ('Maxwell', ()), 'voigt': ('Voigt', (1 / cm, ce)), 'burgers': ('Burgers', (1 / cm, ce)),
               'andrade': ('Andrade', (al, ze)), 'sundberg': ('SundbergCooper', (1 / cm, ce, al, ze))}
@@ -237,6 +239,7 @@ def run(chk):
     from .common import inplace_lint
     inplace_lint(chk, repo, 'R07.6', ['TidalPy/rheology/complex_compliance/compliance_models.py'])
     chk.floor('R07.6', 1)
+    twin.finish(floor=7)
     chk.floor('R07.1', 14); chk.floor('R07.2', 15); chk.floor('R07.3', 12); chk.floor('R07.4', 4); chk.floor('R07.5', 50)
 
 
